@@ -162,6 +162,11 @@ def check_key(ci, d, deep=True, k3=None):
     they are appended to `k3` and not to the failures."""
     if k3 is None:
         k3 = []
+    rot = K.Rot()
+
+    def w(b, pem=False):
+        """the loader argument as bytes / bytearray / memoryview / array('B') (PEM: bytes / bytearray / str), round-robin"""
+        return K.wrap(rot.pick(pem, b), b)
     from ecdsa import SigningKey, VerifyingKey
     bad = []
     cv = ci.cv
@@ -196,12 +201,12 @@ def check_key(ci, d, deep=True, k3=None):
                 bad.append(what + ": reloaded verifying key rejects the signature (%s)" % common.errname(e))
     if sk.to_string() != db:
         bad.append("SigningKey.to_string is not the fixed-length big-endian scalar")
-    same_sk(SigningKey.from_string(db, cv, hashlib.sha256), "from_string")
+    same_sk(SigningKey.from_string(w(db), cv, hashlib.sha256), "from_string")
     for enc in K.ENCS:
         pt = K.enc_point(ci, x, y, enc)
         if vk.to_string(enc) != pt:
             bad.append("to_string(%s) differs from SEC 1 encoding" % enc)
-        same_vk(VerifyingKey.from_string(pt, cv, hashlib.sha256), "from_string(%s)" % enc)
+        same_vk(VerifyingKey.from_string(w(pt), cv, hashlib.sha256), "from_string(%s)" % enc)
         if enc == "raw":
             continue
         ref = K.spki(ci.oid, pt)
@@ -214,10 +219,10 @@ def check_key(ci, d, deep=True, k3=None):
                 bad.append("strict decoder reads other values from to_der(%s)" % enc)
         except K.DerError as e:
             bad.append("strict decoder rejects to_der(%s): %s" % (enc, e))
-        same_vk(VerifyingKey.from_der(ref, hashlib.sha256), "from_der(independent SPKI %s)" % enc)
+        same_vk(VerifyingKey.from_der(w(ref), hashlib.sha256), "from_der(independent SPKI %s)" % enc)
         if vk.to_pem(enc) != K.pem(ref, "PUBLIC KEY"):
             bad.append("to_pem(%s) is not the RFC 7468 armour of the DER" % enc)
-        same_vk(VerifyingKey.from_pem(K.pem(ref, "PUBLIC KEY"), hashlib.sha256), "from_pem(%s)" % enc)
+        same_vk(VerifyingKey.from_pem(w(K.pem(ref, "PUBLIC KEY"), True), hashlib.sha256), "from_pem(%s)" % enc)
         same_vk(VerifyingKey.from_pem(K.pem(ref, "PUBLIC KEY").decode(), hashlib.sha256), "from_pem(str, %s)" % enc)
         ecp = K.ecprivatekey(db, ci.oid, pt)
         p8 = K.pkcs8(ecp, ci.oid)                       # RFC 5958: version 0, there is no top-level publicKey
@@ -239,13 +244,13 @@ def check_key(ci, d, deep=True, k3=None):
                     bad.append("strict decoder reads other ECPrivateKey values (%s, %s)" % (enc, fmt))
             except K.DerError as e:
                 bad.append("strict decoder rejects SigningKey.to_der(%s, %s): %s" % (enc, fmt, e))
-            same_sk(SigningKey.from_der(ref, hashlib.sha256), "SigningKey.from_der(independent %s %s)" % (fmt, enc))
+            same_sk(SigningKey.from_der(w(ref), hashlib.sha256), "SigningKey.from_der(independent %s %s)" % (fmt, enc))
             if sk.to_pem(enc, fmt) != K.pem(got if is_k3 else ref, name):
                 bad.append("SigningKey.to_pem(%s, %s) is not the RFC 7468 armour of the DER" % (enc, fmt))
-            same_sk(SigningKey.from_pem(K.pem(ref, name), hashlib.sha256), "SigningKey.from_pem(%s %s)" % (fmt, enc))
+            same_sk(SigningKey.from_pem(w(K.pem(ref, name), True), hashlib.sha256), "SigningKey.from_pem(%s %s)" % (fmt, enc))
     for (blob, vtag) in variants(ci, d, K.enc_point(ci, x, y, "uncompressed")):
         try:
-            same_sk(SigningKey.from_der(blob, hashlib.sha256), "from_der(" + vtag + ")")
+            same_sk(SigningKey.from_der(w(blob), hashlib.sha256), "from_der(" + vtag + ")")
         except Exception as e:  # noqa
             bad.append("from_der(%s) raised %s" % (vtag, common.errname(e)))
     return bad
